@@ -78,6 +78,19 @@ type meshState struct {
 	vss         []config.Config
 	vhosts      []*route.VirtualHost
 	proxyDomain string
+	// real generator environment of the case (built at the first `rds`, dropped when the mesh changes)
+	cg     *core.ConfigGenTest
+	gen    *core.ConfigGeneratorImpl
+	req    *model.PushRequest
+	fl     *failer
+	nproxy int
+}
+
+func (m *meshState) drop() {
+	if m.fl != nil {
+		m.fl.done()
+	}
+	m.cg, m.gen, m.req, m.fl = nil, nil, nil, nil
 }
 
 func (m *meshSvc) real() *model.Service {
@@ -98,6 +111,7 @@ func (s *state) rdsStep(f []string) (string, bool) {
 			ms.ports = append(ms.ports, atoi(p))
 		}
 		m.svcs = append(m.svcs, ms)
+		m.drop()
 		// the SPEC resolves destinations against the full registry (all ports of every service)
 		s.services[host.Name(ms.host)] = ms.real()
 		return "ok", true
@@ -114,20 +128,34 @@ func (s *state) rdsStep(f []string) (string, bool) {
 		c := s.cfg.DeepCopy()
 		c.CreationTimestamp = time.Unix(int64(1000+len(m.vss)), 0)
 		m.vss = append(m.vss, c)
+		m.drop()
 		return "ok", true
 	case "rds":
+		// The route configuration is produced the way the discovery server produces it: ONE generator wired to a
+		// REAL model.XdsCache (core.NewConfigGenerator(cache)) serves every proxy of the case, in op order, from
+		// one push context - so whatever the RDS cache shares between proxies is part of what is observed.
 		ns, labels, port := wire.Dec(f[1]), pairsMap(decPairs(f[2])), atoi(f[3])
-		fl := &failer{}
-		defer fl.done()
-		var svcs []*model.Service
-		for i := range m.svcs {
-			svcs = append(svcs, m.svcs[i].real())
+		if m.cg == nil {
+			m.fl = &failer{}
+			var svcs []*model.Service
+			for i := range m.svcs {
+				svcs = append(svcs, m.svcs[i].real())
+			}
+			m.cg = core.NewConfigGenTest(m.fl, core.TestOptions{Services: svcs, Configs: m.vss})
+			m.gen = core.NewConfigGenerator(model.NewXdsCache())
+			m.req = &model.PushRequest{Push: m.cg.PushContext(), Start: time.Now()}
 		}
-		cg := core.NewConfigGenTest(fl, core.TestOptions{Services: svcs, Configs: m.vss})
-		proxy := cg.SetupProxy(&model.Proxy{ConfigNamespace: ns, Labels: labels,
+		m.nproxy++
+		proxy := m.cg.SetupProxy(&model.Proxy{ConfigNamespace: ns, Labels: labels, ID: "p" + strconv.Itoa(m.nproxy) + "." + ns,
 			Metadata: &model.NodeMetadata{Namespace: ns, Labels: labels}})
-		vhosts, _, _ := core.BuildSidecarOutboundVirtualHosts(proxy, cg.PushContext(), strconv.Itoa(port), port, nil, &model.DisabledCache{})
-		m.vhosts = vhosts
+		resources, _ := m.gen.BuildHTTPRoutes(proxy, m.req, []string{strconv.Itoa(port)})
+		m.vhosts = nil
+		if len(resources) == 1 {
+			rc := &route.RouteConfiguration{}
+			if err := resources[0].Resource.UnmarshalTo(rc); err == nil {
+				m.vhosts = rc.VirtualHosts
+			}
+		}
 		m.proxyDomain = proxy.DNSDomain
 		// context of the spec
 		s.node = &model.Proxy{Type: model.SidecarProxy, Labels: labels, Metadata: &model.NodeMetadata{Namespace: ns}}
@@ -135,6 +163,9 @@ func (s *state) rdsStep(f []string) (string, bool) {
 		s.port = port
 		return "ok", true
 	case "rreq": // same layout as `req`; the authority selects the virtual host
+		if m.cg == nil {
+			return "no-rds", true // (shrunk cases) no route configuration was built for the current mesh
+		}
 		q := parseReq(f)
 		vh := selectVHostRef(m.vhosts, q.authority)
 		if vh == nil {
@@ -234,43 +265,60 @@ func (s *state) meshSpec(authority string, q request) string {
 			return showDist([]kvw{{"outbound|" + strconv.Itoa(s.port) + "||" + ms.host, 1}})
 		}
 	}
-	return "404"
+	// no service of that name on this port: the catch-all virtual host (outboundTrafficPolicy ALLOW_ANY)
+	return showDist([]kvw{{"PassthroughCluster", 1}})
 }
 
-// classifyMesh names the input class of an end-to-end disagreement.
-func (s *state) classifyMesh(want, got string) string {
-	// F-C12-4: a destination without explicit port whose service does not expose the listener port
-	for i := range s.mesh.vss {
-		for _, h := range s.mesh.vss[i].Spec.(*networking.VirtualService).Http {
-			for _, d := range h.Route {
-				if d.Destination.GetPort() != nil {
-					continue
-				}
-				for _, ms := range s.mesh.svcs {
-					if ms.host == d.Destination.Host && len(ms.ports) == 1 && ms.ports[0] != s.port {
-						return "destination-port-of-service-not-on-listener-port"
-					}
-				}
-			}
+// classifyMesh names the input class of an end-to-end disagreement.  The known class F-C12-4 is returned
+// only when it EXPLAINS the disagreement: the spec recomputed against the registry restricted to the
+// listener port (what the sidecar path hands the route compiler) equals what the real configuration did.
+func (s *state) classifyMesh(q request, want, got string) string {
+	full := s.services
+	restricted := map[host.Name]*model.Service{}
+	for h, svc := range full {
+		if p, ok := svc.Ports.GetByPort(s.port); ok {
+			c := *svc
+			c.Ports = model.PortList{p}
+			restricted[h] = &c
 		}
+	}
+	s.services = restricted
+	alt := s.meshSpec(q.authority, q)
+	s.services = full
+	if alt == got && alt != want {
+		return "destination-port-of-service-not-on-listener-port"
 	}
 	return "mesh-decision"
 }
 
 // ---------------------------------------------------------------- generator
 
-var (
-	meshHosts = []meshSvc{
-		{host: "reviews.default.svc.cluster.local", ns: "default"},
-		{host: "ratings.default.svc.cluster.local", ns: "default"},
-		{host: "details.default.svc.cluster.local", ns: "default"},
-		{host: "reviews.other.svc.cluster.local", ns: "other"},
-		{host: "billing.other.svc.cluster.local", ns: "other"},
-		{host: "api.example.com", ns: "default"},
-		{host: "www.example.com", ns: "other"},
+// Namespace universes: some namespaces are string prefixes of others (shop / shop-canary, ns1 / ns10), since
+// several name computations work on raw strings.
+var nsUniverses = [][]string{
+	{"default", "other"}, {"shop", "shop-canary"}, {"ns1", "ns10", "ns2"}, {"team", "team-b", "default"}, {"a", "ab", "abc"},
+}
+
+var meshSvcNames = []string{"reviews", "ratings", "details", "billing"}
+
+func meshPool(nss []string) []meshSvc {
+	var out []meshSvc
+	for _, ns := range nss {
+		for _, n := range meshSvcNames {
+			out = append(out, meshSvc{host: n + "." + ns + ".svc.cluster.local", ns: ns})
+		}
 	}
-	meshVSHosts = []string{"*.default.svc.cluster.local", "*.svc.cluster.local", "*.other.svc.cluster.local", "*.example.com", "*.com", "*.cluster.local"}
-)
+	out = append(out, meshSvc{host: "api.example.com", ns: nss[0]}, meshSvc{host: "www.example.com", ns: nss[len(nss)-1]})
+	return out
+}
+
+func meshVSHostPool(nss []string) []string {
+	out := []string{"*.svc.cluster.local", "*.example.com", "*.com", "*.cluster.local"}
+	for _, ns := range nss {
+		out = append(out, "*."+ns+".svc.cluster.local")
+	}
+	return out
+}
 
 func genRds(seed uint64, n int, out string) {
 	root := wire.NewRng(seed*1000003 + 99)
@@ -285,9 +333,15 @@ func genRds(seed uint64, n int, out string) {
 		// virtual hosts of their own ("gross HACK" in buildSidecarVirtualHostsForVirtualService), which the
 		// end-to-end spec does not describe
 		port := wire.Pick(r, []int{8080, 9080, 9080, 8000})
-		picked := wire.Subset(r, meshHosts, 3, 5)
-		if len(picked) == 0 {
-			picked = append([]meshSvc(nil), meshHosts[:2]...)
+		nss := wire.Pick(r, nsUniverses)
+		pool := meshPool(nss)
+		meshVSHosts := meshVSHostPool(nss)
+		picked := wire.Subset(r, pool, 2, 5)
+		if len(picked) < 2 {
+			picked = append([]meshSvc(nil), pool[0], pool[len(meshSvcNames)])
+		}
+		if len(picked) > 6 {
+			picked = picked[:6]
 		}
 		onPort := map[string]bool{}
 		for k, ms := range picked {
@@ -333,13 +387,16 @@ func genRds(seed uint64, n int, out string) {
 				continue
 			}
 			for {
-				vsf := []string{"vs", "mvs" + strconv.Itoa(k), wire.Pick(r, nsPool), "plain", wire.EncList(hosts)}
+				vsf := []string{"vs", "mvs" + strconv.Itoa(k), wire.Pick(r, nss), "plain", wire.EncList(hosts)}
 				s.apply(vsf)
 				nr := 1 + r.Intn(3)
 				for j := 0; j < nr; j++ {
 					h := genRule(r, "requests", j, false, false)
 					for _, m := range h.Match {
 						m.Gateways = nil // mesh gateway only
+						if m.SourceNamespace != "" {
+							m.SourceNamespace = wire.Pick(r, nss)
+						}
 					}
 					for _, d := range h.Route {
 						// keep F-C12-4 out of the generated stream (it has its own corpus file): a destination
@@ -365,38 +422,50 @@ func genRds(seed uint64, n int, out string) {
 				break
 			}
 		}
-		p := genProxy(r)
-		o.Line("rds", wire.Enc(p.ns), encPairs(p.labels), strconv.Itoa(port))
-		pd := p.ns + ".svc.cluster.local"
 		merged := &networking.VirtualService{}
 		for _, v := range all {
 			merged.Http = append(merged.Http, v.Http...)
 		}
-		nreq := 6 + r.Intn(6)
-		for k := 0; k < nreq; k++ {
-			ms := wire.Pick(r, picked)
-			names := svcNames(ms, pd)
-			a := wire.Pick(r, names)
-			switch r.Intn(12) {
-			case 0:
-				a = flipCase(r, a)
-			case 1:
-				a = strings.Split(ms.host, ".")[0] // bare name, valid only in the same namespace
-			case 2:
-				a = oneOff(r, a)
-			case 3:
-				a = wire.Pick(r, []string{"unknown.example.org", "x.default.svc.cluster.local", "reviews.default.svc", "example.com"})
+		// several sidecars are served one after the other from the same generator and cache; neighbours often
+		// share the namespace and differ only in their workload labels
+		np := 1 + r.Intn(3)
+		var prev proxyCfg
+		for pi := 0; pi < np; pi++ {
+			p := genProxy(r)
+			p.gws = []string{"mesh"}
+			p.ns = wire.Pick(r, nss)
+			if pi > 0 && r.Chance(2, 3) {
+				p.ns = prev.ns
 			}
-			var q request
-			if len(merged.Http) > 0 {
-				q = synthRequests(r, merged, 1)[0]
-			} else {
-				q = synthRequest(r, nil)
+			prev = p
+			o.Line("rds", wire.Enc(p.ns), encPairs(p.labels), strconv.Itoa(port))
+			pd := p.ns + ".svc.cluster.local"
+			nreq := 4 + r.Intn(5)
+			for k := 0; k < nreq; k++ {
+				ms := wire.Pick(r, picked)
+				names := svcNames(ms, pd)
+				a := wire.Pick(r, names)
+				switch r.Intn(12) {
+				case 0:
+					a = flipCase(r, a)
+				case 1, 2:
+					a = strings.Split(ms.host, ".")[0] // bare name, valid only in the same namespace
+				case 3:
+					a = oneOff(r, a)
+				case 4:
+					a = wire.Pick(r, []string{"unknown.example.org", "x.default.svc.cluster.local", "reviews." + p.ns + ".svc", "example.com", "reviews." + p.ns})
+				}
+				var q request
+				if len(merged.Http) > 0 {
+					q = synthRequests(r, merged, 1)[0]
+				} else {
+					q = synthRequest(r, nil)
+				}
+				q.authority = a
+				f := []string{"rreq", wire.Enc(q.path), encPairs(q.query), wire.Enc(q.method), wire.Enc(q.authority), wire.Enc(q.scheme), encPairs(q.headers),
+					encPairs(regexTable(merged, q))}
+				o.Line(f...)
 			}
-			q.authority = a
-			f := []string{"rreq", wire.Enc(q.path), encPairs(q.query), wire.Enc(q.method), wire.Enc(q.authority), wire.Enc(q.scheme), encPairs(q.headers),
-				encPairs(regexTable(merged, q))}
-			o.Line(f...)
 		}
 	}
 	if f, err := os.Create(out + ".stats"); err == nil {
@@ -420,22 +489,19 @@ func oracleRds(in, out string) {
 	o := wire.Create(out)
 	defer o.Close()
 	s := newState()
-	verdict := ""
+	var v verdicts
 	started := false
 	flush := func() {
 		if started {
-			if verdict == "" {
-				verdict = "OK"
-			}
-			o.Line(verdict)
+			o.Line(v.line())
 		}
-		verdict = ""
+		v = verdicts{}
 	}
 	for _, f := range lines {
 		func() {
 			defer func() {
-				if r := recover(); r != nil && verdict == "" {
-					verdict = "FAIL crash op=" + f[0]
+				if r := recover(); r != nil {
+					v.fail("crash", "op="+f[0])
 				}
 			}()
 			switch {
@@ -446,10 +512,14 @@ func oracleRds(in, out string) {
 			case s.apply(f):
 			case f[0] == "rreq":
 				got, _ := s.rdsStep(f)
+				if got == "no-rds" {
+					return
+				}
 				q := parseReq(f)
 				want := s.meshSpec(q.authority, q)
-				if got != want && verdict == "" {
-					verdict = fmt.Sprintf("FAIL %s want=%s got=%s authority=%s path=%s", s.classifyMesh(want, got), want, got, f[4], f[1])
+				if got != want {
+					v.fail(s.classifyMesh(q, want, got), fmt.Sprintf("want=%s got=%s authority=%s path=%s proxy=%s/%s", want, got, f[4], f[1],
+						s.node.Metadata.Namespace, encPairs(sortedKV(s.node.Labels))))
 				}
 			default:
 				s.rdsStep(f)
